@@ -48,8 +48,10 @@ fn ip_addr(v6: bool, ip: u8, port: u16) -> SocketAddr {
     fam_addr(v6, 500 + (ip as u16 % IPS), port.max(1))
 }
 
-fn gap() -> impl Strategy<Value = u64> {
+fn gap(long: bool) -> impl Strategy<Value = u64> {
     prop_oneof![
+        // very long idle periods (component tier only): 2^k ms +/- 5 s, k = 21..40 (2^32 ms = 49.7 days)
+        if long { 1 } else { 0 } => (21u32..=40, 0u64..10_000).prop_map(|(k, d)| (1u64 << k) + d - 5_000),
         4 => 0u64..2_000,
         3 => 599_000u64..=601_000,
         2 => 1_199_000u64..=1_201_000,
@@ -61,7 +63,7 @@ fn gap() -> impl Strategy<Value = u64> {
     ]
 }
 
-fn event(with_restart: bool) -> impl Strategy<Value = Ev> {
+fn event(with_restart: bool, long: bool) -> impl Strategy<Value = Ev> {
     let tok = prop_oneof![
         8 => (0u8..3).prop_map(TokRef::Mine),
         2 => (0u8..3).prop_map(TokRef::Other),
@@ -72,7 +74,7 @@ fn event(with_restart: bool) -> impl Strategy<Value = Ev> {
         1 => (0u8..20).prop_map(TokRef::MinePrefix),
     ];
     prop_oneof![
-        5 => gap().prop_map(|ms| Ev::Gap { ms }),
+        5 => gap(long).prop_map(|ms| Ev::Gap { ms }),
         4 => (0u8..IPS as u8, 1u16..5).prop_map(|(ip, port)| Ev::GetPeers { ip, port }),
         6 => (0u8..IPS as u8, 1u16..5, tok, 0u8..3, proptest::option::of(1u16..)).prop_map(|(ip, port, token, hash, explicit)| Ev::Announce { ip, port, token, hash, explicit }),
         if with_restart { 1 } else { 0 } => Just(Ev::Restart),
@@ -318,8 +320,8 @@ async fn run_history(c: &Case, mut sut: Sut) -> Outcome {
     Outcome::pass(nt).label(if cross_ip { "cross-ip" } else { "no-cross-ip" }).label(if decided.values().any(|(a, r)| *a && *r) { "accept-and-reject-same-token" } else { "single-decision" })
 }
 
-fn strategy(with_restart: bool, max: usize) -> BoxedStrategy<Case> {
-    let free = (any::<bool>(), vec(event(with_restart), 5..max)).prop_map(|(v6, events)| Case { v6, events });
+fn strategy(with_restart: bool, max: usize, long: bool) -> BoxedStrategy<Case> {
+    let free = (any::<bool>(), vec(event(with_restart, long), 5..max)).prop_map(|(v6, events)| Case { v6, events });
     // structured prefix around one lazy rotation: a token issued `a` ms before the 10-minute mark
     // of the current secret, another event `b` ms after the mark (which rotates the secrets), and
     // the announce when the token is 10 min - c old; repeated with fresh parameters
@@ -333,7 +335,7 @@ fn strategy(with_restart: bool, max: usize) -> BoxedStrategy<Case> {
             Ev::Announce { ip, port: 3, token: TokRef::Mine(0), hash: 1, explicit: None },
         ]
     });
-    let structured = (any::<bool>(), vec(round, 1..4), vec(event(with_restart), 0..20)).prop_map(|(v6, rounds, tail)| {
+    let structured = (any::<bool>(), vec(round, 1..4), vec(event(with_restart, long), 0..20)).prop_map(|(v6, rounds, tail)| {
         let mut events: Vec<Ev> = rounds.into_iter().flatten().collect();
         events.extend(tail);
         Case { v6, events }
@@ -354,14 +356,14 @@ impl Stage for Component {
         tier.pick(20_000, 400_000)
     }
     fn strategy(&self, _t: Tier) -> BoxedStrategy<Case> {
-        strategy(true, 80)
+        strategy(true, 80, true)
     }
     fn run(&self, c: &Case) -> Outcome {
         let rt = paused_rt(1);
         rt.block_on(async { run_history(c, Sut::Component { store: TokenStore::new() }).await })
     }
     fn rule(&self) -> String {
-        format!("[re-exported TokenStore, no network] {RULE}")
+        format!("[re-exported TokenStore, no network; additionally idle periods of 2^k ms +/- 5 s, k = 21..40] {RULE}")
     }
     fn sample(&self, c: &Case) -> serde_json::Value {
         serde_json::json!({"v6": c.v6, "n_events": c.events.len(), "first": c.events.iter().take(6).map(|e| format!("{e:?}")).collect::<Vec<_>>()})
@@ -379,7 +381,7 @@ impl Stage for System {
         tier.pick(1000, 20_000)
     }
     fn strategy(&self, _t: Tier) -> BoxedStrategy<Case> {
-        strategy(true, 80)
+        strategy(true, 80, false)
     }
     fn run(&self, c: &Case) -> Outcome {
         let rt = paused_rt(1);
